@@ -39,12 +39,12 @@ func Substr[T ~string](str T, offset, length int) T {
 			return Null[T]()
 		}
 		end = newLength
+	} else if length > len(str)-offset {
+		// offset+length would pass the end of the string (or overflow int):
+		// the selection is clipped at the end.
+		end = len(str)
 	} else {
 		end = offset + length
-	}
-
-	if end > len(str) {
-		end = len(str)
 	}
 
 	if !InRange(offset, 0, len(str)) || !InRange(end, 0, len(str)) {
